@@ -496,19 +496,33 @@ def classify(c, cell, real):
     st = c.st()
     cands, shp, ta = cell["cands"], cell["shp"], cell["ta"]
     shift = cell["shifts"][0] if cell["shifts"] else None
+    empt = [k for k in cands if k["empty"]]
+    n1_domain = (not st["glr"]) and len(empt) >= 2 and len({k["prio"] for k in empt}) < len(empt)
+
+    def n1_shape(want, ta_used=None):
+        # putting back some evicted EMPTY reductions gives the documented (or a pairwise justified) cell
+        if not n1_domain:
+            return False
+        gone = [k["id"] for k in empt if k["id"] not in real]
+        for n in range(1, len(gone) + 1):
+            for back in itertools.combinations(gone, n):
+                r2 = list(real) + list(back)
+                if sorted(r2) == sorted(want):
+                    return True
+                if len(cands) + (1 if shift else 0) >= 3 and \
+                        pairwise_justified(st, shift, ta_used or ta, shp, cands, r2):
+                    return True
+        return False
     # F1: the terminal's own associativity is consulted (equal priority) and was applied inverted
     if shift and ta != "N" and any(k["prio"] == shp for k in cands):
         swapped = {"L": "R", "R": "L"}[ta]
-        if sorted(real) == sorted(doc_cell(st, shift, swapped, shp, cands)) or \
+        exp = doc_cell(st, shift, swapped, shp, cands)
+        if sorted(real) == sorted(exp) or n1_shape(exp, swapped) or \
                 (len(cands) > 1 and pairwise_justified(st, shift, swapped, shp, cands, real)):
             return KEY_F1
     # N1: LR, EMPTY reductions of equal priority: one that the rule keeps is missing
-    if not st["glr"]:
-        empt = [k for k in cands if k["empty"]]
-        want = doc_cell(st, shift, ta, shp, cands)
-        if len(empt) >= 2 and len({k["prio"] for k in empt}) < len(empt) and \
-                any(k["id"] in want and k["id"] not in real for k in empt):
-            return KEY_N1
+    if n1_shape(doc_cell(st, shift, ta, shp, cands)):
+        return KEY_N1
     return None
 
 
@@ -772,8 +786,8 @@ def conf_cases(tier):
 
 def random_cases(rng, tier):
     cases = []
-    n_multi = 250 if tier == "quick" else 3000
-    n_rand = 250 if tier == "quick" else 4000
+    n_multi = 1500 if tier == "quick" else 25000
+    n_rand = 2500 if tier == "quick" else 50000
     for _ in range(n_multi):
         g = multi_grammar(rng)
         algo = rng.choice(["LR", "GLR"])
@@ -783,9 +797,11 @@ def random_cases(rng, tier):
     n = 0
     while n < n_rand and tries < n_rand * 30:
         tries += 1
-        g = random_grammar(rng, max_nts=3, max_alts=3, max_rhs=3, nterm=3, p_empty=0.2, p_nt=0.5)
-        if g.undefined_symbols() or not g.all_productive():
-            continue
+        big = rng.random() < 0.2
+        g = random_grammar(rng, max_nts=4 if big else 3, max_alts=4 if big else 3, max_rhs=3, nterm=3,
+                           p_empty=0.2, p_nt=0.5)
+        if g.undefined_symbols() or not g.all_productive() or any(rhs == [l] for l, rhs in g.prods):
+            continue            # `X: X` is rejected by the compiler ("Infinite recursion")
         g = annotate_pt(rng, g)
         algo = rng.choice(["LR", "GLR"])
         tt = rng.choice(["LALR", "LALR_PAGER"] + (["LALR_RN"] if algo == "GLR" else []))
